@@ -5,11 +5,11 @@ Regenerated from the *current* source on every run:
     (`ScriptPubKey.p2pkh/p2sh/p2wpkh/p2wsh/p2tr`, `p2pk`, `p2ms`) applied to a probe payload and split
     around it -- prefix / suffix of each;
   * the finalizer's constants in btclib/psbt/psbt.py (`_NO_CODESEP`, `_SINGLE_KEY_LEAF_SIZE`, `_PUSH_32`,
-    `_OP_CHECKSIG`, `LEAF_HASH_SIZE`, `_FINALIZED_KEEPS`), the order of the four arms of `_finalized_input`
+    `_OP_CHECKSIG`, `LEAF_HASH_SIZE`), the order of the four arms of `_finalized_input`
     and the preference of the key path in `_finalized_taproot_input` (read off the AST);
   * the engine's flag masks (`ALL_FLAGS` = the default set, `EVERY_FLAG` = every ScriptFlag member,
     `STANDARD_FLAGS` = every member but SIGPUSHONLY, Core's STANDARD_SCRIPT_VERIFY_FLAGS);
-  * the ECDSA / taproot default hash types `sign` falls back to, BIP322's tag.
+  * the ECDSA / taproot hash types `sign` may be asked for (proved in Props/C10 to be defined hash types of the engine).
 A shape that is no longer recognised raises (=> "broken" in index.json: the tie is broken, never a pass).
 """
 import ast
@@ -76,9 +76,6 @@ def constants():
     out.append(f"def PUSH_32 : Nat := {P._PUSH_32}")
     out.append(f"def OP_CHECKSIG : Nat := {P._OP_CHECKSIG}")
     out.append(f"def LEAF_HASH_SIZE : Nat := {P.LEAF_HASH_SIZE}")
-    keeps = sorted(P._FINALIZED_KEEPS)
-    out.append("def FINALIZED_KEEPS : List String := [" + ", ".join(f'"{k}"' for k in keeps) + "]")
-    out.append("def SIGNATURE_FIELDS : List String := [" + ", ".join(f'"{k}"' for k in sorted(P._SIGNATURE_FIELDS)) + "]")
 
     arms = _arms(P._finalized_input)
     want = ["psbt_in.witness_script", "is_p2wpkh(script)", "is_p2pkh(script)"]
@@ -101,7 +98,6 @@ def constants():
     out.append(f"def SIGHASH_ALL : Nat := {sig_hash.ALL}")
     out.append(f"def ECDSA_HASH_TYPES : List Nat := {sorted(t for t in sig_hash.SIG_HASH_TYPES if t != sig_hash.DEFAULT)}")
     out.append(f"def TAPROOT_HASH_TYPES : List Nat := {sorted(sig_hash.SIG_HASH_TYPES)}")
-    out.append(f"def BIP322_TAG : List UInt8 := {_blit(bip322.TAG)}")
     return "\n".join(out) + "\n"
 
 
